@@ -1242,6 +1242,14 @@ def rule_g(ck):
             if len(cs) != 1 or tuple(cs[0].args) != tuple(('v', a) for a in argmap):
                 bad = 'does not call %s(driver, data, n) exactly once' % callee
                 continue
+            # the driver does nothing else to the buffer: what is in it already is the stream's prefix (sink) / is still to be
+            # read (source); a rewind, clear or reset "to make room" drops or moves it
+            other = [e for e in p.calls() if e is not cs[0] and e.kind == 'call' and e.name not in ('byte_buffer_rest', 'byte_buffer_avail') and not eng.is_pure(e.name)
+                     and any(strip_cast(a) == ('v', 'driver') for a in e.args)]
+            if other:
+                bad = bad or ('also hands the buffer to %s (%s): octets already in the buffer - the prefix of the stream a sink has taken, the unread rest of a source - are moved or dropped'
+                              % (other[0].name, other[0].where()))
+                continue
             r = cs[0].result
             rv = strip_cast(p.ret)
             if fn == 'read_from_buffer':
